@@ -337,3 +337,40 @@ package db
 //@   mode bv
 //@   requires oldest > 1 && tok.LowSeq == oldest - 1
 //@   ensures[resume-safe] tok.SafeSequence() < oldest
+
+// ---- the changes feed main loop (goroutine body of SimpleMultiChangesFeed) ----
+
+// TRUSTED frames of the two blocking calls of the wait loop (needed so that what is known about the goroutine's own
+// variables survives the wait). ChangeWaiter.Wait (change_listener.go:449) writes exactly these three fields of the
+// waiter; changeListener.Wait / CurrentCount, which it calls, only read the listener's counters under the notifier's
+// lock (sync.Cond.Wait blocks). waitForCacheUpdate (changes.go:1229) only reads a ticker, the context and the
+// channel cache's high sequence. Both block while other goroutines run: the variables named in the clauses below
+// (options, requestLowSeq, useLateSequenceFeeds) are locals of / captured only by this goroutine (the parent returns
+// right after `go`), so no other goroutine can write them.
+//@ func ChangeWaiter.Wait
+//@   trusted
+//@   modifies waiter.lastCounter, waiter.lastTerminateCheckCounter, waiter.lastUserCount
+//@ func DatabaseCollectionWithUser.waitForCacheUpdate
+//@   trusted
+
+// Path clauses of the main loop (modifies *: every other callee is uncontracted and havocs the heap; the clauses
+// are about the goroutine's own variables). Call sites are named by ordinal in the verifier's block order and,
+// where the callee is a log call, pinned by its format string so that a shift of ordinals is noticed:
+//   low-is-oldest-skipped-1  the feed's low sequence is (oldest skipped - 1), or 0 when nothing is skipped
+//                            (0 also when the oldest skipped sequence is 1: the recorded finding above);
+//   stamped-low              every entry about to be sent carries that low sequence (changes.go:1099);
+//   low-restored-*           a feed that does not use late-sequence feeds (longpoll) has the REQUEST's low sequence
+//                            back in options.Since before it tells the reader it is waiting, and still has it at
+//                            every ChangeWaiter.Wait / waitForCacheUpdate of the wait loop.
+// Not expressible (clause 3 of the plan, "LowSeq is zeroed at the top of an iteration only when it equals the
+// current system low sequence"): it relates the value before and after changes.go:855-857, there is no call between
+// that statement and the next loop head, and `options` (captured, hence a heap object) is havocked there.
+//@ func DatabaseCollectionWithUser.SimpleMultiChangesFeed$1
+//@   only-contracts ChangeWaiter.Wait, waitForCacheUpdate
+//@   modifies *
+//@   before[low-is-oldest-skipped-1] call DebugfCtx#7 $2 == "MultiChangesFeed sending %+v %s" && lowSequence == ite(callres(getOldestSkippedSequence, 1, 0) > 0, callres(getOldestSkippedSequence, 1, 0) - 1, 0)
+//@   before[stamped-low]            call DebugfCtx#7 minEntry.Seq.LowSeq == lowSequence
+//@   before[low-restored-parked]    call DebugfCtx#3 $2 == "MultiChangesFeed waiting... %s" && (!useLateSequenceFeeds ==> options.Since.LowSeq == requestLowSeq)
+//@   before[low-restored-wait]      call Wait#1 !useLateSequenceFeeds ==> options.Since.LowSeq == requestLowSeq
+//@   before[low-restored-cachewait] call waitForCacheUpdate#1 !useLateSequenceFeeds ==> options.Since.LowSeq == requestLowSeq
+//@   loop 8 invariant[low-restored] !useLateSequenceFeeds ==> options.Since.LowSeq == requestLowSeq
